@@ -180,6 +180,7 @@ void vf_thread_done(int t);
 static inline void *vf_nonnull(void *p) { __CPROVER_assume(p != 0); return p; }
 void *vf_aligned_malloc(uint64_t bytes, uint64_t alignment); /* contract of detail::alignedMalloc (C44) */
 void vf_aligned_free(void *p);
+uint8_t *vf_c30_pool_alloc(void *self); /* C30/C31: contract of NoLockPoolAllocator::alloc (defined in harness/C30/pool_model.c via rt_extra) */
 /* --- libc / c++ runtime -------------------------------------------------------------------- */
 void *vf_malloc(uint64_t n);
 void *vf_malloc_nt(uint64_t n, void *);
